@@ -9,9 +9,9 @@ THEOREMS = ["Rsp.Props.C13.decttl_length", "Rsp.Props.C13.decttl_zero", "Rsp.Pro
             "Rsp.Props.C13.decttl_meets_spec", "Rsp.Props.C13.checkttl_plain", "Rsp.Props.C13.checkttl_plain_first",
             "Rsp.Props.C13.addttl_plain", "Rsp.Props.C13.effAddTtl_table", "Rsp.Props.C13.loopPrevents_iff"]
 RULE = ("world: histories with TTL attributes of the configured type (plain or vendor) at 0,1,2,3,256,.. and odd lengths on requests and replies, AddTTL per peer/global, "
-        "client and server blocks sharing a name under LoopPrevention on/off/unset; non-trivial = something was forwarded or delivered. decttl: every value of length 0..2 (quick) / 0..3 (thorough) enumerated, longer ones sampled around borrow chains; "
+        "client and server blocks sharing a name under LoopPrevention on/off/unset; non-trivial = something was forwarded or delivered. decttl: every value of length 0..2 enumerated (thorough: plus 786432 three-octet values), longer ones sampled around borrow chains; "
         "a case is non-trivial when the value is non-empty and distinct by content")
-EXHAUSTIVE = {"quick": ["decttl: all values of length 0,1,2"], "thorough": ["decttl: all values of length 0,1,2,3"]}
+EXHAUSTIVE = {"quick": ["decttl: all values of length 0,1,2"], "thorough": ["decttl: all values of length 0,1,2", "decttl: 3-octet values: all 65536 low-octet pairs under 12 leading octets"]}
 ASSUMPTIONS = ["byte values are uint8; lengths < 256 as in struct tlv"]
 
 
@@ -22,10 +22,14 @@ def hexs(b):
 def gen(rng, tier):
     from rspcheck import Case
     cs = []
-    maxlen = 3 if tier == "thorough" else 2
-    for n in range(0, maxlen + 1):
+    for n in range(0, 3):
         for t in itertools.product(range(256), repeat=n):
             cs.append(Case("decttl " + hexs(t), kind="decttl", len=n))
+    if tier == "thorough":
+        # 3 octets: every value of the two low octets under each of 12 leading octets (the borrow never looks further up)
+        for hi in (0, 1, 2, 3, 127, 128, 129, 254, 255, 16, 64, 200):
+            for t in itertools.product(range(256), repeat=2):
+                cs.append(Case("decttl " + hexs((hi,) + t), kind="decttl", len=3))
     # sampled longer values with borrow-chain boundaries
     for _ in range(4000 if tier == "quick" else 40000):
         n = rng.choice([3, 4, 4, 4, 5, 8, 16, 64, 253])
